@@ -69,6 +69,7 @@ private theorem inv_step {s : State O Req Key} (h : Inv hash s) (e : Event O Req
   | clear => exact inv_empty hash s.opts
   | configure o => exact inv_configure hash s o
   | request q c => exact inv_request hash h q c
+  | edit k c => exact h
 
 private theorem inv_runFrom {s : State O Req Key} (h : Inv hash s) (es : List (Event O Req)) :
     Inv hash (runFrom hash s es).1 := by
@@ -121,6 +122,9 @@ theorem pending_in_recording_order (o : O) (es : List (Event O Req)) :
       | request q c =>
         simp only [step, loadedOf] at ih' ⊢
         exact ih'.trans (List.Sublist.append (request_sublist hash h q c) (List.Sublist.refl _))
+      | edit k c =>
+        simp only [step, loadedOf] at ih' ⊢
+        exact ih'
   simpa [run, init] using key es (init o) (inv_empty hash o)
 
 /-- **served only if keys equal**: whatever happened before, a request is answered with recording `r` only if
@@ -182,6 +186,9 @@ theorem at_most_once_without_reuse (o : O) (es : List (Event O Req)) (hnr : NoRe
         omega
       | configure o' =>
         simp only [step, configure_recorded hash h, loadedOf] at ih' ⊢
+        exact ih'
+      | edit k c =>
+        simp only [step, loadedOf] at ih' ⊢
         exact ih'
       | request q c =>
         have hc : (c.reuse || c.nopop) = false := hn q c (List.mem_cons_self ..)
@@ -350,6 +357,18 @@ theorem serves_first_match (o : O) (es : List (Event O Req)) (q : Req) (c : RCfg
         · intro h'; exact absurd h' (unmatched_ne_served c r)
         · intro h'; cases h'
 
+/-- **what is served is the recording as it was loaded** — in every history, including histories in which later
+    addons rewrite responses that were served earlier (`Event.edit`): an `edit` never changes the addon's state, and
+    every response that is served is the value (`resp` included) of a recording exactly as it was handed to
+    `load_flows` / `add_flows`.  Serving never changes a recording: the pending list only ever loses elements. -/
+theorem served_response_is_recorded (o : O) (es : List (Event O Req)) :
+    (∀ s k c, step hash s (.edit k c) = (s, none)) ∧
+    (∀ q c r, (request hash (run hash o es).1 q c).2 = .served r → r ∈ loadedOf es) ∧
+    (∀ q c, (request hash (run hash o es).1 q c).1.recorded.Sublist (run hash o es).1.recorded) := by
+  refine ⟨fun _ _ _ => rfl, ?_, fun q c => request_sublist hash (inv_run hash o es) q c⟩
+  intro q c r hs
+  exact (pending_in_recording_order hash o es).subset ((served_only_if_keys_equal hash o es q c r hs).1)
+
 /-- the configured treatment of unmatched requests, spelled out -/
 theorem unmatched_table (c : RCfg) :
     ((c.killExtra = true ∨ c.extra = .kill) → (unmatched c : Outcome Req) = .killed) ∧
@@ -453,6 +472,7 @@ theorem never_crashes (o : O) (es : List (Event O Req)) : Outcome.crash ∉ (run
       | add rs => simpa [step] using ih'
       | clear => simpa [step] using ih'
       | configure o' => simpa [step] using ih'
+      | edit k c => simpa [step] using ih'
       | request q c =>
         simp only [step, List.mem_cons, not_or] at ih' ⊢
         refine ⟨?_, ih'⟩
@@ -598,10 +618,10 @@ theorem served_only_if_parts_agree (o : HashOpts) (es : List (Event HashOpts Req
 /-! ### the models are not vacuous -/
 section
 private def h0 : Nat → Nat → Nat := fun o r => if o = 0 then r else 0
-private def r1 : Rec Nat := ⟨1, 10, true, true⟩
-private def r2 : Rec Nat := ⟨2, 20, true, true⟩
-private def r3 : Rec Nat := ⟨3, 10, true, true⟩
-private def r4 : Rec Nat := ⟨4, 10, false, true⟩
+private def r1 : Rec Nat := ⟨1, 10, true, true, 101⟩
+private def r2 : Rec Nat := ⟨2, 20, true, true, 102⟩
+private def r3 : Rec Nat := ⟨3, 10, true, true, 103⟩
+private def r4 : Rec Nat := ⟨4, 10, false, true, 0⟩
 private def nr : RCfg := ⟨false, false, false, .status 404⟩
 private def ru : RCfg := ⟨true, false, false, .kill⟩
 
@@ -609,6 +629,9 @@ private def ru : RCfg := ⟨true, false, false, .kill⟩
     recording order by the fixed code; a fourth request is answered as configured -/
 example : (run h0 0 [.load [r1, r2, r3], .configure 1, .request 7 nr, .request 7 nr, .request 7 nr]).2
     = [.served r1, .served r2, .served r3] := by decide
+/-- with reuse the same recording is served again and again, unaffected by edits of the copies served before -/
+example : (run h0 0 [.load [r1], .request 10 ru, .edit 0 999, .request 10 ru, .edit 1 5, .request 10 ru]).2
+    = [.served r1, .served r1, .served r1] := by decide
 example : (run h0 0 [.load [r1, r2], .request 10 nr, .request 10 nr, .request 10 nr]).2
     = [.served r1, .status 404, .status 404] := by decide
 /-- response-less recordings are skipped; reuse serves the same recording again; kill when nothing matches -/
@@ -619,7 +642,7 @@ private def oAll : HashOpts := ⟨false, false, false, [], [], []⟩
 private def oNoHost : HashOpts := ⟨false, true, false, [], [], []⟩
 private def rqA : ReqF := ⟨[104], [71], [47], [], [97], 80, some [], [], [], []⟩
 private def rqB : ReqF := { rqA with host := [98] }
-private def recA : Rec ReqF := ⟨1, rqA, true, true⟩
+private def recA : Rec ReqF := ⟨1, rqA, true, true, 7⟩
 example : (run keyOf oAll [.load [recA], .request rqB nr]).2 = [.status 404] := by decide
 example : (run keyOf oAll [.load [recA], .configure oNoHost, .request rqB nr]).2 = [.served recA] := by decide
 example : Agree oNoHost rqA rqB ∧ ¬ Agree oAll rqA rqB := by
